@@ -38,7 +38,6 @@ pub fn run() -> Report {
     let btc = coin("bitcoin");
     let n = if thorough { 4 } else { 3 };
     // logical chains: the small dependent chain, and one with 40 KiB and 100 KiB blocks (larger than the 32 KiB buffer)
-    let small = dependent_chain(btc, 0, n);
     let big = {
         let mut cb = ChainBuilder::with_genesis(btc);
         for (k, sz) in [40_000usize, 100_000, 300].iter().enumerate() {
@@ -56,7 +55,34 @@ pub fn run() -> Report {
         }
         cb
     };
-    let per_coin: Vec<(&'static refmodel::coins::Coin, ChainBuilder, ChainBuilder)> = refmodel::coins::COINS.iter().map(|c| (c, dependent_chain(c, 0, n), big_of(c))).collect();
+    // the small chain carries what today's blocks carry: coinbases stored in segwit form (witness reserved value) and segwit
+    // transactions whose witness items have lengths that are no multiple of any key length - bytes the parser skips rather than
+    // keeps, which must advance the key position like any others
+    let small_of = |c: &'static refmodel::coins::Coin| {
+        let mut cb = dependent_chain(c, 0, 1);
+        let mut prev_cb: Option<[u8; 32]> = None;
+        while cb.blocks.len() < n {
+            let h = cb.next_height();
+            let mut cbtx = refmodel::chain::coinbase(h, 7, vec![refmodel::chain::pay((h % 200) as u8 + 3, 50 * refmodel::chain::COIN_VALUE), TxOut { value: 0, script: refmodel::script::op_return(format!("h{}", h).as_bytes()) }]);
+            if h % 2 == 1 {
+                cbtx.segwit = true;
+                cbtx.inputs[0].witness = vec![vec![0u8; 32]];
+            }
+            let mut txs = vec![cbtx.clone()];
+            if let Some(p) = prev_cb {
+                txs.push(Tx { version: 2, segwit: false, inputs: vec![TxIn::spend(p, 0)], outputs: vec![refmodel::chain::pay(200, 20), refmodel::chain::pay((h % 50) as u8 + 100, 29)], locktime: h as u32, wide: 0 });
+            }
+            let mut i1 = TxIn::spend([0xe5; 32], h as u32);
+            i1.witness = vec![vec![0xde, 0xad, 0xbe, 0xef, 0x01], vec![0x30; 71], vec![0x02; 33]];
+            let mut i2 = TxIn::spend([0xe6; 32], h as u32);
+            i2.witness = vec![vec![], vec![0x51; h as usize + 1], vec![0x77; 107]];
+            txs.push(Tx { version: 2, segwit: true, inputs: vec![i1, i2], outputs: vec![refmodel::chain::pay(201, 11), TxOut { value: 0, script: refmodel::script::op_return(format!("segwit {}", h).as_bytes()) }], locktime: 0, wide: 0 });
+            prev_cb = Some(cbtx.txid());
+            cb.push_raw(txs);
+        }
+        cb
+    };
+    let per_coin: Vec<(&'static refmodel::coins::Coin, ChainBuilder, ChainBuilder)> = refmodel::coins::COINS.iter().map(|c| (c, small_of(c), big_of(c))).collect();
     #[derive(Clone)]
     struct Case {
         big: bool,
@@ -217,7 +243,7 @@ pub fn run() -> Report {
     }
     // short / interrupted / failing reads on the obfuscated blk files (every read the run issues, one or two deviations):
     // the de-obfuscation must follow the bytes actually delivered. Blocks of 40 and 100 KiB make every block span several reads.
-    for (label, chain, key) in [("xor-small", &small, vec![0xc3u8, 0x1e, 0x79]), ("xor-big", &big, (0..7u8).map(|i| i.wrapping_mul(91).wrapping_add(0xc3)).collect::<Vec<u8>>())] {
+    for (label, chain, key) in [("xor-small", &per_coin[0].1, vec![0xc3u8, 0x1e, 0x79]), ("xor-big", &big, (0..7u8).map(|i| i.wrapping_mul(91).wrapping_add(0xc3)).collect::<Vec<u8>>())] {
         let blocks = (0..chain.blocks.len()).map(|b| (b, Gap::FakeMagic, None)).collect();
         let layout = Layout { files: vec![(0, None, blocks)], index_form: 0, junk_keys: false, foreign_entries: false, label: label.to_string() };
         let plain_world = build_world(btc, &chain.blocks, 0, &layout);
